@@ -310,10 +310,41 @@ def run(chk, repo):
         fn = repo.find(LS, q)
         r = max((n for n in own_nodes(fn) if isinstance(n, ast.Return)), key=lambda n: n.lineno)
         e = r.value
+        def resolved(expr_node, assigns):
+            """the expression with the loop-body temporaries replaced by what they were bound to (in order)"""
+            envs = {}
+
+            class R(ast.NodeTransformer):
+                def visit_Name(self, n):
+                    if isinstance(n.ctx, ast.Load) and n.id in envs:
+                        return ast.parse(unparse(envs[n.id]), mode="eval").body
+                    return n
+            for a_ in assigns:
+                envs[a_.targets[0].id] = R().visit(ast.parse(unparse(a_.value), mode="eval").body)
+            return R().visit(ast.parse(unparse(expr_node), mode="eval").body)
         if isinstance(e, ast.Call) and base_name(canon(mod, e.func)) == "Stream":
-            if not (e.args and isinstance(e.args[0], (ast.GeneratorExp, ast.ListComp))):
+            a0 = e.args[0] if e.args else None
+            if isinstance(a0, (ast.GeneratorExp, ast.ListComp)):
+                e = a0.elt
+            elif isinstance(a0, ast.Call) and isinstance(a0.func, ast.Name) and not a0.args:
+                gdef = [f_ for f_ in ast.walk(fn) if isinstance(f_, FuncTypes) and f_.name == a0.func.id]
+                gb = docstring_free(gdef[0].body) if gdef else []
+                if not (len(gb) == 1 and isinstance(gb[0], ast.For)):
+                    raise AnalysisError("%s: interpolating generator not recognised" % q)
+                lpb = gb[0].body
+                ys_ = [s_ for s_ in lpb if isinstance(s_, ast.Expr) and isinstance(s_.value, ast.Yield)]
+                as_ = [s_ for s_ in lpb if isinstance(s_, ast.Assign) and len(s_.targets) == 1 and isinstance(s_.targets[0], ast.Name)]
+                if len(ys_) != 1 or len(ys_) + len(as_) != len(lpb):
+                    raise AnalysisError("%s: interpolating generator not recognised" % q)
+                e = resolved(ys_[0].value.value, as_)
+            else:
                 raise AnalysisError("%s: the interpolated samples are not a generator expression (%s)" % (q, short(e)))
-            e = e.args[0].elt
+        else:
+            # plain return: temporaries of the function body resolved as well
+            pre_ = [s_ for s_ in docstring_free(fn.body) if isinstance(s_, ast.Assign) and len(s_.targets) == 1
+                    and isinstance(s_.targets[0], ast.Name) and s_.targets[0].id not in ("total_length",)]
+            if pre_:
+                e = resolved(e, pre_)
         ok = isinstance(e, ast.BinOp) and isinstance(e.op, ast.Add)
         detail = ""
         if ok:
@@ -353,7 +384,7 @@ def run(chk, repo):
         chk.decide(not s.escapes, "E3", WP("resample"), describe(s),
                    why="when the input (or the step stream) ends the generator raises RuntimeError instead of stopping "
                        "(PEP 479)", node=s.node)
-    chk.floor("E3", len(sites), 3, "next() sites in resample")
+    chk.floor("E3", len(sites), 2, "next() sites in resample")
     at = repo.find(LS, "attack")
     for s in [s for s in e3.scan(at) if s.in_generator and s.escapes]:
         chk.note("E3", W("attack"), "%s - an empty sustain iterable raises RuntimeError; the property states nothing about "
@@ -380,8 +411,13 @@ def run(chk, repo):
         c = d.value
         kws = {k.arg: k.value for k in c.keywords}
         try:
-            ok = unparse(c.args[0]) in ("[zero] * (order + 1)", "(order + 1) * [zero]") \
-                and Evaluator().ev(kws["maxlen"]) == order + 1
+            a0_ = c.args[0]
+            rep_ok = False
+            if isinstance(a0_, ast.BinOp) and isinstance(a0_.op, ast.Mult):
+                lst_, cnt_ = (a0_.left, a0_.right) if isinstance(a0_.left, ast.List) else (a0_.right, a0_.left)
+                rep_ok = isinstance(lst_, ast.List) and [unparse(e_) for e_ in lst_.elts] == ["zero"] \
+                    and Evaluator(env).ev(cnt_) == order + 1
+            ok = rep_ok and Evaluator(env).ev(kws["maxlen"]) == order + 1
         except (Inconclusive, KeyError):
             ok = False
     chk.decide(ok, "C19.resample", WP("resample"), short(d), why="window must be order+1 zero-valued samples "
@@ -393,7 +429,21 @@ def run(chk, repo):
     chk.decide("idx" in facts and unparse(facts["idx"].value) == "int(threshold)", "C19.resample", WP("resample"),
                short(facts.get("idx")), why="first output sits on the first input sample", node=rs)
     whiles = [n for n in ast.walk(rs) if isinstance(n, ast.While) and isinstance(n.test, ast.Constant)]
-    chk.require(len(whiles) == 2, "resample: the two main loops not found")
+    chk.require(len(whiles) in (1, 2), "resample: main loop(s) not found")
+    if len(whiles) == 1:
+        # one loop for both kinds of step: the step source must be the step stream itself or the constant repeated
+        aug = whiles[0].body[1] if len(whiles[0].body) > 1 else None
+        src_ok = False
+        if isinstance(aug, ast.AugAssign) and isinstance(aug.value, ast.Call) and unparse(aug.value.func) == "next" \
+                and len(aug.value.args) == 1 and isinstance(aug.value.args[0], ast.Name):
+            nm_ = aug.value.args[0].id
+            defs_ = [n_.value for n_ in ast.walk(rs) if isinstance(n_, ast.Assign) and unparse(n_.targets[0]) == nm_]
+            src_ok = len(defs_) == 1 and unparse(defs_[0]) in (
+                "iter(step) if isinstance(step, Iterable) else it.repeat(step)",
+                "it.repeat(step) if not isinstance(step, Iterable) else iter(step)")
+        chk.decide(src_ok, "C19.resample", WP("resample"), "single loop fed by %s" % (short(aug) if aug is not None else "?"),
+                   why="the position must advance by the next item of a step stream, or by the constant step every time",
+                   node=whiles[0])
     canon_w = []
     for w in whiles:
         txt = [unparse(s) for s in w.body]
@@ -405,7 +455,9 @@ def run(chk, repo):
         chk.decide(ok, "C19.resample", WP("resample"), "loop: " + " ; ".join(txt)[:120],
                    why="each output is the Lagrange interpolation of the window at idx; idx advances by the step; while "
                        "idx > threshold one sample enters and idx decreases by one", node=w)
-    if canon_w[0] == canon_w[1]:
+    if len(canon_w) == 1:
+        pass
+    elif canon_w[0] == canon_w[1]:
         chk.ok("C19.siblings", WP("resample"), "constant-step and stream-step loops agree", node=rs)
     else:
         chk.note("C19.siblings", WP("resample"), "the two loops are written differently (advisory; each is checked)")
